@@ -141,6 +141,14 @@ func (exec *Executor) getArrayIndex(
 	found := newList()
 	res, err := exec.executeItem(ctx, node, value, found)
 	if res == statusFailed {
+		if err == nil {
+			// The error was suppressed (silent mode, or inside a predicate);
+			// the subscript still has no value.
+			err = fmt.Errorf(
+				"%w: jsonpath array subscript is not a single numeric value",
+				ErrVerbose,
+			)
+		}
 		return 0, err
 	}
 
